@@ -472,6 +472,18 @@ func (r *callbackReader) Read(p []byte) (n int, err error) {
 	return
 }
 
+// Close reports the bytes read so far if the last report is older: a decoder
+// that knows its stream has ended (deflate) never reads the wrapped body's
+// io.EOF, and a caller may stop early; the last reported size is then still
+// the number of bytes that were downloaded.
+func (r *callbackReader) Close() error {
+	if r.read > r.lastRead {
+		r.callback(r.read)
+		r.lastRead = r.read
+	}
+	return r.ReadCloser.Close()
+}
+
 func handleDownload(c *Client, r *Response) (err error) {
 	if r.Response == nil || !r.Request.isSaveResponse {
 		return nil
